@@ -171,7 +171,11 @@ def check_flatten(case):
         pkg0 = h.to_proto(top)
     except Exception:
         return None
-    m0 = package_meaning(pkg0, top.name)
+    from rtc.meaning import InvalidPackage
+    try:
+        m0 = package_meaning(pkg0, top.name)
+    except InvalidPackage:
+        return None          # (the hierarchical export itself is broken: C06's business, nothing to compare with)
     try:
         from hdl21.flatten import flatten as _flatten
         flat = _flatten(build())
@@ -190,7 +194,10 @@ def check_flatten(case):
         pkg1 = h.to_proto(flat)
     except Exception as e:
         return ("post.unexportable", f"{desc}: flattened module cannot be exported: {type(e).__name__}: {str(e)[:140]}", w)
-    m1 = package_meaning(pkg1, flat.name)
+    try:
+        m1 = package_meaning(pkg1, flat.name)
+    except InvalidPackage as e:
+        return ("post.unexportable", f"{desc}: the flattened module's package is not a circuit: {str(e)[:160]}", w)
     # map the original hierarchical paths onto flatten's ':'-joined names
     def joined(path):
         return (":".join(str(s) if isinstance(s, str) else f"{s[1]}_{s[2]}" for s in path),)
